@@ -1,4 +1,4 @@
-// extract/c14: regenerates lean/Generated/C14Recursion.lean, C14Input.lean and C14Wrappers.lean from the anchored codec
+// extract/c14: regenerates lean/Generated/C14Recursion.lean, C14Input.lean, C14Wrappers.lean, C14Numbers.lean and C14Readers.lean from the anchored codec
 // sources (std/protowire/*.go, std/php/{unserialize,serialize,json_decode,json_encode,base64_*,url*,rawurl*,bin2hex,md5,
 // hash}.go, std/serializer/json/*.go). go/ast only; nothing is executed. See recur.go, wire.go, ser.go, wrap.go for what
 // each part reads.
@@ -117,6 +117,21 @@ func main() {
 	sb.WriteString("def shapeNotes : List String := " + leanList(quoteAll(nf.notes.list), "  ") + "\n\n")
 	sb.WriteString("end Generated.C14Numbers\n")
 	if err := ex.WriteIfChanged(args.Out, "C14Numbers.lean", sb.String()); err != nil {
+		die(err)
+	}
+	// ---- order of the readers of unserialize, marker literals of the decoders
+	of := &orderFacts{}
+	analyseOrder(phpPkg, jsonPkg, of)
+	sb.Reset()
+	sb.WriteString("import Model.ReaderOrder\n")
+	sb.WriteString("/-! C14: the reader attempts of `UnserializeFunction.Call` (std/php/unserialize.go) in source order — gate, kind (exact\n")
+	sb.WriteString("reader / literal-sniffing branch), the literals, final or falling through — and every string literal of two or more\n")
+	sb.WriteString("bytes a decoder compares its input with. -/\n")
+	sb.WriteString("namespace Generated.C14Readers\nopen Model.ReaderOrder\n\n")
+	sb.WriteString(of.lean())
+	sb.WriteString("def shapeNotes : List String := " + leanList(quoteAll(of.notes.list), "  ") + "\n\n")
+	sb.WriteString("end Generated.C14Readers\n")
+	if err := ex.WriteIfChanged(args.Out, "C14Readers.lean", sb.String()); err != nil {
 		die(err)
 	}
 	fmt.Printf("c14: %d depth graph(s), %d file(s) with uncounted recursion, %d consume site(s), %d index site(s), %d wrapper(s); notes: %d\n",
